@@ -229,7 +229,7 @@ def run(R):
               "Non-trivial = a non-identity permutation; ambiguous = top utility score not separated by > 4e-9 (winner clause skipped).")
     R.assumptions = ["for the float Harmonic the factorisation through the rank multiset is checked as a functional table over the run"]
     items = []
-    cnt = 4000 if R.thorough else 130
+    cnt = 4000 if R.thorough else 240
     for t in range(cnt):
         m = R.rng.choice([2, 3, 3, 4, 5, 6, 8])
         n = R.rng.choice([1, 2, 3, 4, 5, 8, 12, 20, 40, 65, 97, 130])
